@@ -549,10 +549,18 @@ def rule_syntax(chk, rng, thorough):
         except Exception as e:   # noqa
             return {'ok': False, 'pat': [], 'names': [], 'fkeys': [], 'exc': type(e).__name__}
     recs = []
+    unknown = [0]
+
+    def judged(t):
+        # without a way to tell which filter a handler object stands for, the filter part of the parse cannot be compared
+        if any(f == rl.s2l('?') for f in t['fkeys']):
+            unknown[0] += 1
+            t['fkeys'] = list(t['want']['fkeys'])
+        return t
     for w in r.printed_json('W'):
         t = real(rl.l2s(w['text']))
         t.update(kind='rendered', text=w['text'], want={k: w['want'][k] for k in ('pat', 'names', 'fkeys')})
-        recs.append(t)
+        recs.append(judged(t))
         chk.count(1, ('syntax', tuple(w['text'])))
     alpha = 'a/:<>{}.()int'
     texts = [''.join(t) for n in range(0, 5 if thorough else 4) for t in itertools.product(alpha, repeat=n)]
@@ -572,7 +580,7 @@ def rule_syntax(chk, rng, thorough):
                 t.update(kind='rendered', text=rl.s2l(tx),
                          want={'pat': rl.s2l('files/') + [TOKEN] + rl.s2l(lit) + [TOKEN], 'names': [rl.s2l(n1), rl.s2l(n2)],
                                'fkeys': [rl.s2l('path(%s)' % lit), rl.s2l(f2)]})
-                recs.append(t)
+                recs.append(judged(t))
                 chk.count(1, ('syntax-path-lookahead', tx))
     for tx in texts:
         if '[' in tx or '\\' in tx:
@@ -587,6 +595,9 @@ def rule_syntax(chk, rng, thorough):
         chk.violation('C01: rule text %r does not parse to the rule it was written for: got %s, wanted %s'
                       % ('/' + rl.l2s(t['text']), {k: t[k] for k in ('ok', 'pat', 'names', 'fkeys')}, t['want']),
                       {'clauses': ['FlavourEquiv'], 'rule_text': '/' + rl.l2s(t['text'])})
+    if unknown[0]:
+        chk.drift('rule syntax: the filter behind %d parsed wildcards could not be identified (the factory keeps no table of them): '
+                  'pattern and names are still compared, filters are not' % unknown[0])
     drift = sorted(set(missing) - set(fails))
     if drift:
         t = recs[drift[0]]
